@@ -807,6 +807,7 @@ struct C14;
 impl Property for C14 {
     type Case = Case;
     const ID: &'static str = "C14";
+    const CASE_TIMEOUT_S: u64 = 1800;
 
     fn plan(tier: Tier) -> Plan {
         match tier {
